@@ -142,6 +142,19 @@ def date_schemes(n: int, rng):
     agd = [round(rng.uniform(0.05, 18.0), rng.choice([1, 1, 2, 3, 5])) for _ in range(n)]
     agd[rng.randrange(n)] = 0.0
     out["ages-decimal"] = agd
+    # time-origin / sign conventions: a forward time axis whose origin is the most recent sample (all dates <= 0,
+    # max 0), mixed signs, negative only (not touching 0), all equal and non-zero
+    fwd = [-q() for _ in range(n)]
+    fwd[rng.randrange(n)] = 0.0
+    if n > 1 and all(v == 0.0 for v in fwd):
+        fwd[(fwd.index(0.0) + 1) % n] = -1.5
+    out["forward-max0"] = fwd
+    mixed = [q() - 5.0 for _ in range(n)]
+    if min(mixed) == 0.0:
+        mixed[mixed.index(0.0)] = -0.25
+    out["mixed-signs"] = mixed
+    out["negative-only"] = [-1.0 - q() for _ in range(n)]
+    out["all-equal-nonzero"] = [rng.choice([2021.0, -4.0, 10.0])] * n
     return out
 
 
